@@ -42,6 +42,9 @@ Qed.
 (* C06 (data messages): a data message that fails a check — malformed, key ids outside the window, bad MAC,
    counter not above the stored one — leaves the conversation exactly as it was.  The only effects are the
    optional error reply (together with whatever replies were already pending) and the event. *)
+Lemma forgetVersion_noop before err c ev : before <> 0 -> forgetVersion before err c ev = (tt, c, ev).
+Proof. intros H. unfold forgetVersion. msimpl. destruct (N.eqb_spec before 0); [contradiction | reflexivity]. Qed.
+
 Theorem rejected_data_message_is_inert now c ver stag rtag d aux rnd e :
   isOTREnabled (c_policies c) = true -> c_msgState c = c_encrypted -> header_ok c ver stag rtag ->
   recvDataMsg (c_keys c) d (fst (draw c)) = Err e ->
@@ -56,6 +59,7 @@ Proof.
   unfold receiveDecoded, commitToVersionFrom. msimpl.
   assert (Hv0 : negb (c_version c =? 0) = true).
   { destruct Hh as [->|[-> _]]; rewrite Hv; reflexivity. }
+  assert (Hver : ver <> 0) by (destruct Hh as [->|[-> _]]; discriminate).
   rewrite Hv0. change (negb (0 =? 0)) with false. msimpl.
   rewrite Hv, N.eqb_refl. cbn [negb]. msimpl.
   assert (Htag : (if ver =? 3 then verifyInstanceTags stag rtag else ret 0) c [] = (0, c, [])).
@@ -83,22 +87,24 @@ Proof.
   rewrite He. cbn [negb andb].
   destruct (N.land (af_flag (d_fields d)) c_messageFlagIgnoreUnreadable =? c_messageFlagIgnoreUnreadable) eqn:Ei.
   - (* flagged ignore-unreadable: dropped silently *)
-    change (0 =? 0) with true. msimpl. unfold finish, withInjects. msimpl.
-    change (0 =? 0) with true. cbn iota. cbn [r_plain r_out r_err].
+    rewrite !N.eqb_refl. msimpl. rewrite (forgetVersion_noop ver) by exact Hver. unfold finish, withInjects. msimpl.
+    rewrite ?N.eqb_refl. cbn iota. cbn [r_plain r_out r_err].
     split; [reflexivity|]. split; [exists []; rewrite app_nil_r; auto | reflexivity].
   - cbn iota. rewrite He. msimpl.
     destruct (N.eqb_spec e 3) as [->|H3].
-    + change (3 =? 0) with false. msimpl. unfold finish, withInjects. msimpl. change (3 =? 0) with false. cbn iota.
+    + change (3 =? 0) with false. msimpl. rewrite (forgetVersion_noop ver) by exact Hver. unfold finish, withInjects. msimpl. change (3 =? 0) with false. cbn iota.
       cbn [r_plain r_out r_err].
       split; [reflexivity|]. split; [exists []; rewrite app_nil_r; auto | reflexivity].
     + destruct (N.eqb_spec e 2) as [->|H2].
-      * change (2 =? 0) with false. unfold generatePotentialErrorMessage, finish, withInjects. msimpl.
-        destruct (c_errHandler c); msimpl; change (2 =? 0) with false; msimpl; cbn [r_plain r_out r_err].
+      * change (2 =? 0) with false. unfold generatePotentialErrorMessage. msimpl.
+        destruct (c_errHandler c) eqn:Eh; msimpl; rewrite (forgetVersion_noop ver) by exact Hver;
+          unfold finish, withInjects; msimpl; change (2 =? 0) with false; msimpl; cbn [r_plain r_out r_err].
         -- split; [reflexivity|]. split; [|apply set_set_inj].
            exists [WError [c_ErrorCodeMessageUnreadable]]. split; [reflexivity | right; eexists; reflexivity].
         -- split; [reflexivity|]. split; [|reflexivity]. exists []. rewrite app_nil_r. auto.
-      * rewrite He. unfold generatePotentialErrorMessage, finish, withInjects. msimpl.
-        destruct (c_errHandler c); msimpl; rewrite ?He; msimpl; cbn [r_plain r_out r_err].
+      * rewrite He. unfold generatePotentialErrorMessage. msimpl.
+        destruct (c_errHandler c) eqn:Eh; msimpl; rewrite (forgetVersion_noop ver) by exact Hver;
+          unfold finish, withInjects; msimpl; rewrite ?He; msimpl; cbn [r_plain r_out r_err].
         -- split; [reflexivity|]. split; [|apply set_set_inj].
            exists [WError [c_ErrorCodeMessageMalformed]]. split; [rewrite He; reflexivity | right; eexists; reflexivity].
         -- split; [reflexivity|]. split; [|reflexivity]. exists []. rewrite He, app_nil_r. auto.
